@@ -1,9 +1,9 @@
-def Lanelet_compute_polyline_cumsum_dist.for1 (norm : CR.Arc.Pt → Rat) (polylines : List (List CR.Arc.Pt))  :=
+@[simp] def Lanelet_compute_polyline_cumsum_dist.for1 (norm : CR.Arc.Pt → Rat) (polylines : List (List CR.Arc.Pt))  :=
   fun d polyline =>
     let d := d ++ [(CR.PyC20.diff polyline)]
     d
 
-def Lanelet_compute_polyline_cumsum_dist.for2 (norm : CR.Arc.Pt → Rat) (polylines : List (List CR.Arc.Pt))  :=
+@[simp] def Lanelet_compute_polyline_cumsum_dist.for2 (norm : CR.Arc.Pt → Rat) (polylines : List (List CR.Arc.Pt))  :=
   fun segment_distances (i, d_tmp) =>
     let segment_distances := CR.PyC20.setCol segment_distances i (CR.PyC20.append [0] (CR.PyC20.rowNorms norm d_tmp))
     segment_distances
